@@ -3,6 +3,7 @@ package mon
 import (
 	"math"
 	"math/big"
+	"strings"
 
 	geom "github.com/twpayne/go-geom"
 
@@ -152,9 +153,81 @@ func c09Run(c *fw.Ctx, idx int) {
 		c.Sample(g.String())
 	}
 
+	if !c09Judge(c, t, m, g, kind, "") {
+		return
+	}
+	// measure -> change in place -> measure again: the second answer must be the
+	// measure of the geometry as it is now, not of what it was
+	if g.IsEmpty() || !c.R.Chance(1, 3) {
+		return
+	}
+	r = c.R
+	what := ""
+	mapAll := func(f func(co []float64)) {
+		for _, co := range g.AllCoords() {
+			f(co)
+		}
+	}
+	if c.Guard("panic", func() {
+		switch r.Intn(4) {
+		case 0:
+			type reverser interface{ Reverse() }
+			if rv, ok := t.(reverser); ok {
+				rv.Reverse()
+				switch kind {
+				case model.LineString, model.LinearRing:
+					g.C1 = reverse1m(g.C1)
+				case model.Polygon, model.MultiLineString:
+					for i := range g.C2 {
+						g.C2[i] = reverse1m(g.C2[i])
+					}
+				case model.MultiPolygon:
+					for i := range g.C3 {
+						for j := range g.C3[i] {
+							g.C3[i][j] = reverse1m(g.C3[i][j])
+						}
+					}
+				}
+				what = "Reverse"
+			}
+		case 1:
+			// mirror in the y axis: exact, flips the sign of every area
+			geom.TransformInPlace(t, func(co geom.Coord) { co[0] = -co[0] })
+			mapAll(func(co []float64) { co[0] = -co[0] })
+			what = "TransformInPlace(x -> -x)"
+		case 2:
+			// swap x and y of every coordinate by writing through FlatCoords()
+			fc, st := t.FlatCoords(), t.Stride()
+			for i := 0; i+1 < len(fc); i += st {
+				fc[i], fc[i+1] = fc[i+1], fc[i]
+			}
+			mapAll(func(co []float64) { co[0], co[1] = co[1], co[0] })
+			what = "write through FlatCoords() (x <-> y)"
+		default:
+			// replace the coordinates by another shape of the same type
+			g2 := gen.Shape(r, kind, g.Layout, gen.SmallInt, gen.ShapeOpts{CoordFn: c09CoordFn(r.Intn(5)), MaxPts: 8})
+			closeRings(r, g2)
+			if err := setCoordsOn(t, g2); err == nil {
+				*g = *g2
+				what = "SetCoords(another shape)"
+			}
+		}
+	}) {
+		return
+	}
+	if what == "" {
+		return
+	}
+	c.SetInput(map[string]any{"geometry_after": g.String(), "measured_before_and_after": what})
+	c.Count("remeasured_after_" + strings.Fields(what)[0])
+	c09Judge(c, t, m, g, kind, " after "+what)
+}
+
+// c09Judge compares Area and Length of t with the exact measures of its model g.
+func c09Judge(c *fw.Ctx, t geom.T, m measurer, g *model.G, kind model.Kind, phase string) bool {
 	var area, length float64
 	if c.Guard("panic", func() { area = m.Area(); length = m.Length() }) {
-		return
+		return false
 	}
 	c.Eval(2)
 
@@ -194,7 +267,7 @@ func c09Run(c *fw.Ctx, idx int) {
 		tol := n * u2 * exact.BF64(wantLen)
 		d := exact.AbsDiff(length, wantLen)
 		if !exact.AbsDiffLE(length, wantLen, tol) {
-			c.Fail("length-error", "Length() = %v, exact length %v: error %g exceeds the forward bound %g (n=%d)", length, exact.BF64(wantLen), d, tol, acc.nadd)
+			c.Fail("length-error", "Length()"+phase+" = %v, exact length %v: error %g exceeds the forward bound %g (n=%d)", length, exact.BF64(wantLen), d, tol, acc.nadd)
 		} else if tol > 0 {
 			c.Max("length_error_over_bound", d/tol)
 		}
@@ -215,10 +288,10 @@ func c09Run(c *fw.Ctx, idx int) {
 			tol := n * u2 * absSum
 			tolR := exact.R(tol)
 			if math.IsInf(tol, 0) {
-				return
+				return true
 			}
 			if !exact.RatAbsDiffLE(area, wantArea, tolR) {
-				c.Fail("area-error", "Area() = %v, exact shoelace area %v: error exceeds the forward bound %g (n=%d, sum|terms|=%g)", area, exact.F64(wantArea), tol, acc.nadd, absSum)
+				c.Fail("area-error", "Area()"+phase+" = %v, exact shoelace area %v: error exceeds the forward bound %g (n=%d, sum|terms|=%g)", area, exact.F64(wantArea), tol, acc.nadd, absSum)
 			} else if tol > 0 {
 				d := exact.F64(exact.Abs(exact.Sub(exact.R(area), wantArea)))
 				c.Max("area_error_over_bound", d/tol)
@@ -286,6 +359,7 @@ func c09Run(c *fw.Ctx, idx int) {
 			c.Fail("not-additive", "Length() = %v but the lengths of the %d parts sum to %v (bound %g)", length, parts, sumL, tolL)
 		}
 	}
+	return true
 }
 
 func init() {
